@@ -10,36 +10,39 @@ Local Open Scope R_scope.
 
 Definition rad (a : R) : R := a * PI / 180.
 
-(** ** _correct_tilt, both call forms *)
-Lemma tilt_xy_angle opd x y f0 f1 maxx maxy E :
-  k_wf_tilt_xy ROps opd x y "angle" f0 f1 maxx maxy E
-  = opd - ((1 - x) * sin (rad (maxx * f0)) * E / 2 + (1 - y) * sin (rad (maxy * f1)) * E / 2).
+(** ** _correct_tilt, both call forms (vx, vy: vignetting factors of the field; nobj: object-space index) *)
+Lemma tilt_xy_angle opd x y f0 f1 maxf vx vy E nobj :
+  k_wf_tilt_xy ROps opd x y "angle" f0 f1 maxf vx vy E nobj
+  = opd - ((1 - x) * sin (rad (maxf * f0)) * E / 2 + (1 - y) * sin (rad (maxf * f1)) * E / 2) * Rabs nobj.
 Proof. unfold k_wf_tilt_xy, rad. cbn [String.eqb Ascii.eqb Bool.eqb]. rops. reflexivity. Qed.
 
-Lemma tilt_dist_angle opd f0 f1 maxx maxy dx dy E :
-  k_wf_tilt_dist ROps opd "angle" f0 f1 maxx maxy dx dy E
-  = opd - ((1 - dx) * sin (rad (maxx * f0)) * E / 2 + (1 - dy) * sin (rad (maxy * f1)) * E / 2).
+Lemma tilt_dist_angle opd f0 f1 maxf vx vy dx dy E nobj :
+  k_wf_tilt_dist ROps opd "angle" f0 f1 maxf vx vy dx dy E nobj
+  = opd - ((1 - dx * ((1 - vx) * (1 - vx))) * sin (rad (maxf * f0)) * E / 2 +
+           (1 - dy * ((1 - vy) * (1 - vy))) * sin (rad (maxf * f1)) * E / 2) * Rabs nobj.
 Proof. unfold k_wf_tilt_dist, rad. cbn [String.eqb Ascii.eqb Bool.eqb]. rops. reflexivity. Qed.
 
-Lemma tilt_xy_other ft opd x y f0 f1 maxx maxy E :
-  String.eqb ft "angle" = false -> k_wf_tilt_xy ROps opd x y ft f0 f1 maxx maxy E = opd.
+Lemma tilt_xy_other ft opd x y f0 f1 maxf vx vy E nobj :
+  String.eqb ft "angle" = false -> k_wf_tilt_xy ROps opd x y ft f0 f1 maxf vx vy E nobj = opd.
 Proof. intros H. unfold k_wf_tilt_xy. rewrite H. rops. Req. ring. Qed.
 
-Lemma tilt_dist_other ft opd f0 f1 maxx maxy dx dy E :
-  String.eqb ft "angle" = false -> k_wf_tilt_dist ROps opd ft f0 f1 maxx maxy dx dy E = opd.
+Lemma tilt_dist_other ft opd f0 f1 maxf vx vy dx dy E nobj :
+  String.eqb ft "angle" = false -> k_wf_tilt_dist ROps opd ft f0 f1 maxf vx vy dx dy E nobj = opd.
 Proof. intros H. unfold k_wf_tilt_dist. rewrite H. rops. Req. ring. Qed.
 
-(** the two call forms are the same function of the pupil point *)
-Theorem tilt_dist_is_tilt_xy ft opd f0 f1 maxx maxy dx dy E :
-  k_wf_tilt_dist ROps opd ft f0 f1 maxx maxy dx dy E = k_wf_tilt_xy ROps opd dx dy ft f0 f1 maxx maxy E.
+(** the batch form is the explicit form at the pupil point the ray was launched from *)
+Theorem tilt_dist_is_tilt_xy ft opd f0 f1 maxf vx vy dx dy E nobj :
+  k_wf_tilt_dist ROps opd ft f0 f1 maxf vx vy dx dy E nobj
+  = k_wf_tilt_xy ROps opd (dx * ((1 - vx) * (1 - vx))) (dy * ((1 - vy) * (1 - vy))) ft f0 f1 maxf vx vy E nobj.
 Proof.
-  unfold k_wf_tilt_dist, k_wf_tilt_xy. destruct (String.eqb ft "angle"); reflexivity.
+  unfold k_wf_tilt_dist, k_wf_tilt_xy. destruct (String.eqb ft "angle"); rops; reflexivity.
 Qed.
 
 (** the difference (chief corrected) - (ray corrected) *)
-Theorem tilt_difference_angle p q f0 f1 maxx maxy dx dy E :
-  k_wf_tilt_xy ROps p 0 0 "angle" f0 f1 maxx maxy E - k_wf_tilt_dist ROps q "angle" f0 f1 maxx maxy dx dy E
-  = (p - q) - (dx * sin (rad (maxx * f0)) * E / 2 + dy * sin (rad (maxy * f1)) * E / 2).
+Theorem tilt_difference_angle p q f0 f1 maxf vx vy dx dy E nobj :
+  k_wf_tilt_xy ROps p 0 0 "angle" f0 f1 maxf vx vy E nobj - k_wf_tilt_dist ROps q "angle" f0 f1 maxf vx vy dx dy E nobj
+  = (p - q) - (dx * ((1 - vx) * (1 - vx)) * sin (rad (maxf * f0)) * E / 2 +
+               dy * ((1 - vy) * (1 - vy)) * sin (rad (maxf * f1)) * E / 2) * Rabs nobj.
 Proof. rewrite tilt_xy_angle, tilt_dist_angle. field. Qed.
 
 (** ** launch of an infinite object with angular fields *)
@@ -118,48 +121,28 @@ Section Launch.
   Qed.
 End Launch.
 
-(** ** the tilt term against the plane-wave offset of the ray that was actually launched *)
-(** General form, field along y (Hx = 0): optiland subtracts  dy * sin(rad(max_y_field * Hy)) * EPD/2  while the
-    launched ray (pupil point scaled by (1 - vy) in Optic.trace and again in the generator, field angle
-    max_field * Hy) is ahead of the chief ray's wavefront by  dy * (1 - vy)^2 * sin(rad(max_field * Hy)) * EPD/2. *)
-Theorem tilt_vs_launch :
-  forall (c : launchcfg ROps) (w Hy dx dy vx vy p q maxx maxy : R) (r r0 : ray ROps),
+(** ** the tilt term is the plane-wave offset of the ray that was actually launched *)
+(** field along y (Hx = 0), any vignetting factors, any object-space index: the subtracted term is the optical
+    path from the chief ray's wavefront to the launch point of the ray *)
+Theorem tilt_matches_launch :
+  forall (c : launchcfg ROps) (w Hy dx dy vx vy p q nobj : R) (r r0 : ray ROps),
     lc_infinite c = true -> lc_angle c = true -> lc_pos1 c = 0 ->
     0 < lc_EPD c - lc_minpos c + lc_EPL c -> 0 < cos (rad (lc_maxfield c * Hy)) ->
     launch c w 0 Hy (scaled (O:=ROps) dx vx) (scaled (O:=ROps) dy vy) vx vy = Some r ->
     launch c w 0 Hy (scaled (O:=ROps) 0 vx) (scaled (O:=ROps) 0 vy) vx vy = Some r0 ->
-    k_wf_tilt_xy ROps p 0 0 "angle" 0 Hy maxx maxy (lc_EPD c)
-    - k_wf_tilt_dist ROps q "angle" 0 Hy maxx maxy dx dy (lc_EPD c)
-    = (p - q) - plane_wave_path 1 (rL r, rM r, rN r) (rx r0, ry r0, rz r0) (rx r, ry r, rz r)
-      - dy * lc_EPD c / 2 * (sin (rad (maxy * Hy)) - (1 - vy) * (1 - vy) * sin (rad (lc_maxfield c * Hy))).
+    k_wf_tilt_xy ROps p 0 0 "angle" 0 Hy (lc_maxfield c) vx vy (lc_EPD c) nobj
+    - k_wf_tilt_dist ROps q "angle" 0 Hy (lc_maxfield c) vx vy dx dy (lc_EPD c) nobj
+    = (p - q) - plane_wave_path (Rabs nobj) (rL r, rM r, rN r) (rx r0, ry r0, rz r0) (rx r, ry r, rz r).
 Proof.
-  intros c w Hy dx dy vx vy p q maxx maxy r r0 Hinf Hang Hp1 HD Hc Hr Hr0.
+  intros c w Hy dx dy vx vy p q nobj r r0 Hinf Hang Hp1 HD Hc Hr Hr0.
   rewrite tilt_difference_angle.
   unfold scaled in Hr, Hr0. rops.
   replace (0 * (1 - vx)) with 0 in Hr0 by ring. replace (0 * (1 - vy)) with 0 in Hr0 by ring.
   pose proof (launch_offset c Hinf Hang w 0 Hy _ _ vx vy r r0 Hr Hr0) as Ho.
   destruct (launch_dir_y c Hinf Hang w Hy _ _ vx vy r Hp1 HD Hc Hr) as [HL [HM _]].
   unfold plane_wave_path, dot3, sub3, px, py, pz in *. cbn [fst snd] in *. rops.
-  rewrite Ho, HL, HM.
-  replace (rad (maxx * 0)) with 0 by (unfold rad; field). rewrite sin_0. field.
-Qed.
-
-(** the property's clause: no vignetting factor at the field and max_y_field = max_field (true when the
-    largest |field| is a positive y field): the correction IS the plane-wave offset
-    (partial: the two extra hypotheses [vx = vy = 0] and [maxy = lc_maxfield c], and object-space index 1) *)
-Theorem tilt_matches_launch_partial :
-  forall (c : launchcfg ROps) (w Hy dx dy p q maxx : R) (r r0 : ray ROps),
-    lc_infinite c = true -> lc_angle c = true -> lc_pos1 c = 0 ->
-    0 < lc_EPD c - lc_minpos c + lc_EPL c -> 0 < cos (rad (lc_maxfield c * Hy)) ->
-    launch c w 0 Hy (scaled (O:=ROps) dx 0) (scaled (O:=ROps) dy 0) 0 0 = Some r ->
-    launch c w 0 Hy (scaled (O:=ROps) 0 0) (scaled (O:=ROps) 0 0) 0 0 = Some r0 ->
-    k_wf_tilt_xy ROps p 0 0 "angle" 0 Hy maxx (lc_maxfield c) (lc_EPD c)
-    - k_wf_tilt_dist ROps q "angle" 0 Hy maxx (lc_maxfield c) dx dy (lc_EPD c)
-    = (p - q) - plane_wave_path 1 (rL r, rM r, rN r) (rx r0, ry r0, rz r0) (rx r, ry r, rz r).
-Proof.
-  intros c w Hy dx dy p q maxx r r0 Hinf Hang Hp1 HD Hc Hr Hr0.
-  rewrite (tilt_vs_launch c w Hy dx dy 0 0 p q maxx (lc_maxfield c) r r0 Hinf Hang Hp1 HD Hc Hr Hr0).
-  field.
+  rewrite Rmult_1_l in Ho. rewrite Ho, HL, HM.
+  replace (rad (lc_maxfield c * 0)) with 0 by (unfold rad; field). rewrite sin_0. field.
 Qed.
 
 (** finite object, height fields: every ray of the field starts at the same point (a point source: the
@@ -175,9 +158,9 @@ Proof.
 Qed.
 
 Theorem height_fields_no_correction :
-  forall opd f0 f1 maxx maxy dx dy E,
-    k_wf_tilt_dist ROps opd "object_height" f0 f1 maxx maxy dx dy E = opd /\
-    k_wf_tilt_xy ROps opd 0 0 "object_height" f0 f1 maxx maxy E = opd.
+  forall opd f0 f1 maxf vx vy dx dy E nobj,
+    k_wf_tilt_dist ROps opd "object_height" f0 f1 maxf vx vy dx dy E nobj = opd /\
+    k_wf_tilt_xy ROps opd 0 0 "object_height" f0 f1 maxf vx vy E nobj = opd.
 Proof. intros. split; [apply tilt_dist_other|apply tilt_xy_other]; reflexivity. Qed.
 
 (** hypotheses are satisfiable: EPD 10, stop at the first surface (EPL = 0), first surface at z = 0,
